@@ -11,4 +11,5 @@ CONSTANTS
   Quick = TRUE
 INIT Init
 NEXT Next
+INVARIANT Emit
 CHECK_DEADLOCK FALSE
